@@ -244,3 +244,23 @@ S("C04", "checksum compared as unpadded text", "R3", (D, "            if self._c
 N("C04", "presence test inverted branches", (D, "        if expected_checksum is not None:\n            if self._calculated_crc != expected_checksum:", "        if expected_checksum is None:\n            pass\n        else:\n            if expected_checksum != self._calculated_crc:"))
 N("C04", "CRC conditional xor as expression", (D, "                if crc & 0x01:\n                    crc >>= 1\n                    crc ^= 0xA001  # CRC16 polynomial x16 + x15 + x2 +1\n                else:\n                    crc >>= 1", "                crc = (crc >> 1) ^ 0xA001 if crc & 1 else crc >> 1"))
 N("C04", "digit class written [0-9]", (D, r"(?P<BAUDID>\d)", r"(?P<BAUDID>[0-9])"))
+
+# ------------------------------------------------------------------------------------------------ C10
+CO = "cosem"
+S("C10", "deviation unsigned", "R1", (CO, "        construct.Int16sb,\n        decoder=lambda obj, ctx: obj if obj != -0x8000 else None,", "        construct.Int16ub,\n        decoder=lambda obj, ctx: obj if obj != 0x8000 else None,"))
+S("C10", "sign of the offset", "R4", (CO, "minutes=ctx.deviation * -1", "minutes=ctx.deviation"))
+S("C10", "hundredths x 1000", "R4", (CO, "ctx.hundredths_of_second * 10000", "ctx.hundredths_of_second * 1000"))
+S("C10", "month/day arguments swapped", "R4", (CO, "            ctx.month,\n            ctx.day_of_month,\n", "            ctx.day_of_month,\n            ctx.month,\n"))
+S("C10", "status octet consumed twice on 0xFF", "R2", (CO, "construct.If(construct.this.clock_status_byte == 0xFF, construct.Int8ub),", "construct.If(construct.this.clock_status_byte == None, construct.Int8ub),"))
+S("C10", "year little-endian", "R1", (CO, '    "year" / construct.Int16ub,', '    "year" / construct.Int16ul,'))
+S("C10", "hundredths sentinel 0xFE", "R3", (CO, '    "hundredths_of_second" / OptionalDateTimeByte,', '    "hundredths_of_second" / construct.ExprAdapter(construct.Int8ub, decoder=lambda obj, ctx: obj if obj < 0xFE else None, encoder=lambda obj, ctx: obj),'))
+S("C10", "deviation range check off by one", "R3", (CO, "decoder=lambda obj, ctx: obj if obj != -0x8000 else None,", "decoder=lambda obj, ctx: obj if -720 < obj < 720 else None,"))
+S("C10", "DST flag shifts the offset", "R4", (CO, "datetime.timezone(datetime.timedelta(minutes=ctx.deviation * -1))", "datetime.timezone(datetime.timedelta(minutes=ctx.deviation * -1 + (60 if ctx.clock_status and ctx.clock_status.daylight_saving_active else 0)))"))
+S("C10", "text tried before date-time in Field", "R5", (CO, "construct.Select(DateTime, OctedStringText)", "construct.Select(OctedStringText, DateTime)"))
+S("C10", "tagged APDU date-time parsed without consuming the tag", "R5", (CO, "                CommonDataTypes.octet_string: DateTimeField,\n            },\n            default=DateTime,", "                CommonDataTypes.octet_string: DateTime,\n            },\n            default=DateTime,"))
+S("C10", "Aidon clock element consumes the tag twice", "R5", ("aidon", "            cosem.CommonDataTypes.octet_string: cosem.DateTime,", "            cosem.CommonDataTypes.octet_string: cosem.DateTimeField,"))
+S("C10", "normaliser strips the time zone", "R6", ("aidon", "                dictionary[element_name] = measure.content.datetime\n", "                dictionary[element_name] = measure.content.datetime.replace(tzinfo=None)\n"))
+N("C10", "dead second If removed", (CO, "    construct.If(construct.this.clock_status_byte == 0xFF, construct.Int8ub),\n", ""))
+N("C10", "offset written with unary minus", (CO, "minutes=ctx.deviation * -1", "minutes=-ctx.deviation"))
+N("C10", "microseconds via keyword", (CO, "            ctx.hundredths_of_second * 10000\n            if ctx.hundredths_of_second is not None\n            else 0,\n            datetime.timezone(datetime.timedelta(minutes=ctx.deviation * -1))\n            if ctx.deviation is not None\n            else None,\n",
+                                       "            microsecond=10000 * ctx.hundredths_of_second\n            if ctx.hundredths_of_second is not None\n            else 0,\n            tzinfo=datetime.timezone(datetime.timedelta(minutes=ctx.deviation * -1))\n            if ctx.deviation is not None\n            else None,\n"))
